@@ -9,6 +9,7 @@ git clone -q /repo "$SCR/repo" || exit 2
 for d in seeded/*${FILTER}*/; do
   id=$(basename "$d"); prop=${id%%-*}
   [ -f "$d/patch.diff" ] || continue
+  python3 -c "import json,sys;sys.exit(1 if json.load(open('$ROOT/$d/meta.json')).get('retired') else 0)" || { echo "$id RETIRED (see meta.json)"; continue; }
   ( cd "$SCR/repo" && git checkout -q -- . && git apply "$ROOT/$d/patch.diff" ) || { echo "$id APPLY-FAILED"; continue; }
   props="$prop $(python3 -c "import json;print(' '.join(json.load(open('$ROOT/$d/meta.json')).get('also_run',[])))" 2>/dev/null)"
   for p in $props; do
